@@ -82,19 +82,20 @@ def lower_targets(spec, failed=None):
             body = ex.body
             if t.init_list:
                 body = '{ ' + X.init_list_statements(ex.sig, what=t.name) + body[body.index('{') + 1:]
+            missed = []
             if t.pre_rules:
-                body, _ = X.apply_rules(body, t.pre_rules, what=t.name)
+                body, _ = X.apply_rules(body, t.pre_rules, what=t.name, missed=missed)
             if t.defers:
                 body = X.lower_defers(body, what=t.name, **t.defers)
             rules = (X.COMMON_RULES if t.common else []) + t.rules
-            body, fired = X.apply_rules(body, rules, what=t.name)
+            body, fired = X.apply_rules(body, rules, what=t.name, missed=missed)
             if t.marks:
                 body = X.mark_loops(body, t.marks, what=t.name)
             if t.loops:
                 body = X.inject_loop_contracts(body, t.loops, what=t.name)
             if t.ghost:
                 body = X.inject_at(body, t.ghost, what=t.name)
-            out[t.name] = dict(ex=ex, body=body, fired=fired)
+            out[t.name] = dict(ex=ex, body=body, fired=fired, missed=missed)
       except X.ExtractionError as e:
         if failed is None:
             raise
@@ -111,6 +112,9 @@ def gen_units(spec, lowered, work):
         def sub(m):
             n = m.group(1)
             if n not in lowered:
+                if n in getattr(spec, 'FAILED_TARGETS', {}):
+                    # the function could not be lowered: every proof that reaches it is undecided, the others in this unit still run
+                    return '{ __CPROVER_assert(0, "EXTRACTION FAILED: %s"); __CPROVER_assume(0); }' % n
                 raise X.ExtractionError('template %s references unknown target %s' % (getattr(tmpl, '__name__', tmpl), n))
             ex = lowered[n]['ex']
             return '/* lowered from %s */ %s' % (ex.where(), lowered[n]['body'])
@@ -202,6 +206,10 @@ def run_proof(pr, units, work):
     if re.search(r'ignoring (forall|exists)|Parse Error|SMT2 solver returned error', out):
         r.status = 'error'
         r.note = 'solver log contains ignoring/parse error'
+        return r
+    if any('EXTRACTION FAILED' in dsc and st != 'SUCCESS' for n, dsc, st in r.props):
+        r.status = 'error'
+        r.note = 'reaches a function that could not be lowered: ' + ', '.join(sorted(set(dsc.split(': ', 1)[-1] for n, dsc, st in r.props if 'EXTRACTION FAILED' in dsc and st != 'SUCCESS')))
         return r
     for n, dsc, st in r.props:
         if 'CANARY' in dsc:
@@ -433,12 +441,15 @@ def main():
     sdir_ = os.path.join(VERIF, 'specs', spec.ID)
     for uname, tmpl in spec.UNITS.items():
         try:
-            one = type('S', (), dict(ID=spec.ID, UNITS={uname: tmpl}))
+            one = type('S', (), dict(ID=spec.ID, UNITS={uname: tmpl}, FAILED_TARGETS=failed_targets))
             units.update(gen_units(one, lowered, work))
         except X.ExtractionError as e:
             broken_units[uname] = str(e)
     for tname, msg in failed_targets.items():
         undecided.append('extraction: %s' % msg)
+    for t in spec.TARGETS:
+        for m in lowered.get(t.name, {}).get('missed', []):
+            log('NOTE ' + m)
 
     natives = {}
     if replay:
@@ -539,7 +550,7 @@ def main():
         if not remaining:
             continue
         rtop = [x for x in remaining if x in top]
-        if not rtop and not reproduced and getattr(spec, 'AUX_VIOLATION', False):
+        if not rtop and not reproduced and (getattr(spec, 'AUX_VIOLATION', False) or r.proof.aux_violation):
             # no native oracle exists for this property: an inductive obligation that is discharged on the unchanged tree and now
             # fails is reported (DESIGN §4), marked no-failing-input-found
             rtop = remaining
@@ -634,6 +645,7 @@ def main():
                          for k, v in natives.items()],
             not_decided=list(getattr(spec, 'NOT_DECIDED', [])),
             undecided=undecided,
+            lowering_rules_not_fired=[m for t in spec.TARGETS if t.name in lowered for m in lowered[t.name].get('missed', [])],
             known_findings=[k for k, _ in known_hit],
         ),
         assumptions=assumptions,
